@@ -55,7 +55,7 @@ type CacheCfg struct {
 	HasMinCap  bool
 	MinCap     int
 	Callback   func(k, v int) // installed at construction when non-nil
-	ViaConfig  bool           // (documentation only)
+	Payload    bool           // values are pointers to freshly initialised memory (race check)
 }
 
 var twinNames = [...]string{"Cache", "CacheOf[string,any]", "CacheOf[int,int]"}
@@ -110,10 +110,14 @@ func installCacheLayout(l *Layout) {
 func newCache(cfg CacheCfg) CacheLike {
 	switch cfg.Twin {
 	case 0:
+		ad := &cacheAdapter{}
+		if cfg.Payload {
+			ad.box, ad.unbox = boxP, unboxP
+		}
 		var ecb cache.EvictedCallback
 		if cfg.Callback != nil {
 			cb := cfg.Callback
-			ecb = func(k string, v interface{}) { cb(keyIndex(k), unboxV(v)) }
+			ecb = func(k string, v interface{}) { cb(keyIndex(k), ad.ub(v)) }
 		}
 		var c cache.Cache
 		if cfg.UseDefault {
@@ -138,8 +142,12 @@ func newCache(cfg CacheCfg) CacheLike {
 			}
 			c = cache.New(opts...)
 		}
-		return &cacheAdapter{c}
+		ad.c = c
+		return ad
 	case 1:
+		if cfg.Payload {
+			return newCacheOf[string, *payload](cfg, keyName, keyIndex, newPayload, readPayload)
+		}
 		return newCacheOf[string, interface{}](cfg, keyName, keyIndex, boxV, unboxV)
 	case 2:
 		id := func(x int) int { return x }
@@ -150,60 +158,78 @@ func newCache(cfg CacheCfg) CacheLike {
 
 // ---- Cache ----
 
-type cacheAdapter struct{ c cache.Cache }
+type cacheAdapter struct {
+	c     cache.Cache
+	box   func(int) interface{}
+	unbox func(interface{}) int
+}
 
-func (a *cacheAdapter) Set(k, v int, d time.Duration) { a.c.Set(keyName(k), boxV(v), d) }
-func (a *cacheAdapter) SetDefault(k, v int)           { a.c.SetDefault(keyName(k), boxV(v)) }
-func (a *cacheAdapter) SetForever(k, v int)           { a.c.SetForever(keyName(k), boxV(v)) }
+func (a *cacheAdapter) bx(v int) interface{} {
+	if a.box != nil {
+		return a.box(v)
+	}
+	return boxV(v)
+}
+
+func (a *cacheAdapter) ub(x interface{}) int {
+	if a.unbox != nil {
+		return a.unbox(x)
+	}
+	return unboxV(x)
+}
+
+func (a *cacheAdapter) Set(k, v int, d time.Duration) { a.c.Set(keyName(k), a.bx(v), d) }
+func (a *cacheAdapter) SetDefault(k, v int)           { a.c.SetDefault(keyName(k), a.bx(v)) }
+func (a *cacheAdapter) SetForever(k, v int)           { a.c.SetForever(keyName(k), a.bx(v)) }
 func (a *cacheAdapter) Get(k int) (int, bool) {
 	v, ok := a.c.Get(keyName(k))
-	return unboxV(v), ok
+	return a.ub(v), ok
 }
 func (a *cacheAdapter) GetWithExpiration(k int) (int, time.Time, bool) {
 	v, t, ok := a.c.GetWithExpiration(keyName(k))
-	return unboxV(v), t, ok
+	return a.ub(v), t, ok
 }
 func (a *cacheAdapter) GetWithTTL(k int) (int, time.Duration, bool) {
 	v, t, ok := a.c.GetWithTTL(keyName(k))
-	return unboxV(v), t, ok
+	return a.ub(v), t, ok
 }
 func (a *cacheAdapter) GetOrSet(k, v int, d time.Duration) (int, bool) {
-	r, ok := a.c.GetOrSet(keyName(k), boxV(v), d)
-	return unboxV(r), ok
+	r, ok := a.c.GetOrSet(keyName(k), a.bx(v), d)
+	return a.ub(r), ok
 }
 func (a *cacheAdapter) GetAndSet(k, v int, d time.Duration) (int, bool) {
-	r, ok := a.c.GetAndSet(keyName(k), boxV(v), d)
-	return unboxV(r), ok
+	r, ok := a.c.GetAndSet(keyName(k), a.bx(v), d)
+	return a.ub(r), ok
 }
 func (a *cacheAdapter) GetAndRefresh(k int, d time.Duration) (int, bool) {
 	r, ok := a.c.GetAndRefresh(keyName(k), d)
-	return unboxV(r), ok
+	return a.ub(r), ok
 }
 func (a *cacheAdapter) GetOrCompute(k int, fn func() int, d time.Duration) (int, bool) {
-	r, ok := a.c.GetOrCompute(keyName(k), func() interface{} { return boxV(fn()) }, d)
-	return unboxV(r), ok
+	r, ok := a.c.GetOrCompute(keyName(k), func() interface{} { return a.bx(fn()) }, d)
+	return a.ub(r), ok
 }
 func (a *cacheAdapter) Compute(k int, fn func(int, bool) (int, bool), d time.Duration) (int, bool) {
 	r, ok := a.c.Compute(keyName(k), func(o interface{}, l bool) (interface{}, bool) {
-		nv, del := fn(unboxV(o), l)
-		return boxV(nv), del
+		nv, del := fn(a.ub(o), l)
+		return a.bx(nv), del
 	}, d)
-	return unboxV(r), ok
+	return a.ub(r), ok
 }
 func (a *cacheAdapter) GetAndDelete(k int) (int, bool) {
 	r, ok := a.c.GetAndDelete(keyName(k))
-	return unboxV(r), ok
+	return a.ub(r), ok
 }
 func (a *cacheAdapter) Delete(k int)   { a.c.Delete(keyName(k)) }
 func (a *cacheAdapter) DeleteExpired() { a.c.DeleteExpired() }
 func (a *cacheAdapter) Range(fn func(k, v int) bool) {
-	a.c.Range(func(k string, v interface{}) bool { return fn(keyIndex(k), unboxV(v)) })
+	a.c.Range(func(k string, v interface{}) bool { return fn(keyIndex(k), a.ub(v)) })
 }
 func (a *cacheAdapter) RangeNil() { a.c.Range(nil) }
 func (a *cacheAdapter) Items() map[int]int {
 	out := map[int]int{}
 	for k, v := range a.c.Items() {
-		out[keyIndex(k)] = unboxV(v)
+		out[keyIndex(k)] = a.ub(v)
 	}
 	return out
 }
@@ -216,13 +242,13 @@ func (a *cacheAdapter) SetEvictedCallback(fn func(k, v int)) {
 		a.c.SetEvictedCallback(nil)
 		return
 	}
-	a.c.SetEvictedCallback(func(k string, v interface{}) { fn(keyIndex(k), unboxV(v)) })
+	a.c.SetEvictedCallback(func(k string, v interface{}) { fn(keyIndex(k), a.ub(v)) })
 }
 func (a *cacheAdapter) HasEvictedCallback() bool { return a.c.EvictedCallback() != nil }
 func (a *cacheAdapter) Physical() map[int]PhysEntry {
 	out := map[int]PhysEntry{}
 	for k, e := range cache.VerifPhysical(a.c) {
-		out[keyIndex(k)] = PhysEntry{unboxV(e.V), e.E}
+		out[keyIndex(k)] = PhysEntry{a.ub(e.V), e.E}
 	}
 	return out
 }
